@@ -222,6 +222,21 @@ CHECKS = {
              "concurrent injectors + requesters under the race detector with call/return order checked for a single transition.",
         note="The AWS auto-unseal path is not driven (needs AWS Secrets Manager); it calls the same unsealCA.",
         ref="DESIGN.md 4 C09"),
+    "C14": dict(
+        module="KMThrottle",
+        technique="TLA+ token-bucket (integer milli-tokens / milliseconds) and one-time-code limiter models (TLC) + real "
+                  "attempts with a counting password backend / aged limiter state + TLC trace monitor (upper-bound bucket, "
+                  "limiter replay)",
+        text="KMThrottle part 1 is the global token bucket with the window bound as invariant (TLC over all arrival patterns "
+             "in the bounded model); part 2 is the per-user limiter (2 s spacing, lock after every fifth failure, escalation, "
+             "24 h forgiveness) with action properties. On the implementation, sequential bursts through the login form and "
+             "basic-auth over many user names are logged with [tStart,tEnd], status and backend-call delta (counting "
+             "backend) and replayed through an upper-bound bucket, so scheduling delay only makes the check more lenient; a "
+             "concurrent phase compares totals. TLC-simulated and systematic attempt/wait sequences drive the TOTP endpoint "
+             "with time advanced by ageing the limiter entry; the monitor requires accepted => spaced and not locked.",
+        note="Bucket parameters set to burst 5, 2/s in the harness (the daemon enforces minima of 10 and 1/s when loading its "
+             "configuration; the limiter object is the same).",
+        ref="DESIGN.md 4 C14"),
 }
 PENDING_REASON = "check not built yet in this session (specification module planned in DESIGN.md section 4); not claimed until its check runs clean on the unchanged tree"
 ALL = ["C%02d" % i for i in range(1, 21)]
